@@ -10,17 +10,21 @@ package drv
 import (
 	"bytes"
 	"encoding/json"
+	"errors"
 	"fmt"
 	"math"
 	"os"
 	"reflect"
 	"sort"
+	"strings"
 	"sync"
+	"sync/atomic"
 	"syscall"
 	"time"
 
 	"github.com/lugu/qiloop/bus"
 	"github.com/lugu/qiloop/bus/net"
+	"github.com/lugu/qiloop/type/object"
 	"github.com/lugu/qiloop/type/value"
 )
 
@@ -37,6 +41,10 @@ type Itf struct {
 	ProxyMethods  []string
 	ProxySubs     []string    // Subscribe<Sig>
 	ProxyProps    [][3]string // Get<Prop>, Set<Prop>, Subscribe<Prop>
+	// the interfaces of the package whose objects are exchanged (IdlRpc: Probe,
+	// Relay, Itf): Create<Itf> with an implementor that forwards to o, Make<Itf>
+	Create map[string]func(sess bus.Session, svc bus.Service, o *Obj) (interface{}, error)
+	Make   map[string]func(sess bus.Session, p bus.Proxy) interface{}
 }
 
 var registry = map[string]*Itf{}
@@ -53,6 +61,20 @@ type Act struct {
 	Np   int           `json:"np"`
 	Void bool          `json:"void"`
 	Init []interface{} `json:"init"`
+	// the references inside the initial value of a property (hs: the
+	// implementation's handles)
+	InitObjs []Leaf `json:"initobjs,omitempty"`
+}
+
+// Leaf is a reference inside a value (IdlRpc!Leaf): the sender's handle,
+// the receiver's new handle (0: nobody receives), the handle of a second
+// receiver (the subscriber of a property that is set), the object denoted.
+type Leaf struct {
+	Hs  int    `json:"hs"`
+	Hg  int    `json:"hg"`
+	Hg2 int    `json:"hg2"`
+	Obj int    `json:"obj"`
+	Itf string `json:"itf"`
 }
 
 type Op struct {
@@ -65,6 +87,18 @@ type Op struct {
 	// specification's export: used by the check's self-test to show that
 	// the comparison can fail).
 	Expect []interface{} `json:"expect,omitempty"`
+	// references: an object slot of Args / Ret is {"slot": n}: the n-th entry
+	// of Objs resp. Robjs; use / via: Side, H, G and the object Exec that
+	// must execute; Dev names a deviation of the pinned code the operation
+	// runs into (the class of what is observed then)
+	J     int    `json:"j,omitempty"`
+	Side  string `json:"side,omitempty"`
+	H     int    `json:"h,omitempty"`
+	G     int    `json:"g,omitempty"`
+	Objs  []Leaf `json:"objs,omitempty"`
+	Robjs []Leaf `json:"robjs,omitempty"`
+	Exec  int    `json:"exec,omitempty"`
+	Dev   string `json:"dev,omitempty"`
 }
 
 type Scenario struct {
@@ -74,6 +108,18 @@ type Scenario struct {
 	Ops  []Op   `json:"ops"`
 	Pkg  string `json:"pkg"` // registry key
 	N    int    `json:"n"`   // scenario number
+	// the interfaces of the package whose objects are exchanged
+	Itfs   []string `json:"itfs,omitempty"`
+	Layout string   `json:"layout,omitempty"`
+}
+
+func (sc *Scenario) has(itf string) bool {
+	for _, n := range sc.Itfs {
+		if n == itf {
+			return true
+		}
+	}
+	return false
 }
 
 // Failure is reported per operation.
@@ -124,13 +170,55 @@ func dynamic(a interface{}) (value.Value, error) {
 }
 
 // Build makes a Go value of type t from the abstract value a.
-func Build(t reflect.Type, a interface{}) (v reflect.Value, err error) {
+func Build(t reflect.Type, a interface{}) (v reflect.Value, err error) { return buildX(nil, t, a) }
+
+// slotOf tells whether the abstract value is an object slot.
+func slotOf(a interface{}) (int, bool) {
+	m, ok := a.(map[string]interface{})
+	if !ok {
+		return 0, false
+	}
+	f, ok := m["slot"].(float64)
+	return int(f), ok
+}
+
+var objRefType = reflect.TypeOf(object.ObjectReference{})
+
+// buildX is Build for a value that may contain references: an object slot
+// is filled with the reference the sender holds (c.from) under the handle of
+// the slot's leaf.
+func buildX(c *xctx, t reflect.Type, a interface{}) (v reflect.Value, err error) {
 	defer func() {
 		if r := recover(); r != nil {
 			err = fmt.Errorf("build %v from %v: %v", t, a, r)
 		}
 	}()
 	v = reflect.New(t).Elem()
+	if n, isSlot := slotOf(a); isSlot {
+		if c == nil || n < 1 || n > len(c.leaves) {
+			return v, fmt.Errorf("object slot %d without a reference", n)
+		}
+		leaf := c.leaves[n-1]
+		c.w.mu.Lock()
+		pv, held := c.from[leaf.Hs]
+		c.w.mu.Unlock()
+		if !held {
+			return v, errNotHeld
+		}
+		if t == objRefType { // the generic reference
+			op, ok := pv.Interface().(bus.ObjectProxy)
+			if !ok {
+				return v, fmt.Errorf("handle %d is not an object proxy: %v", leaf.Hs, pv.Type())
+			}
+			v.Set(reflect.ValueOf(bus.ObjectReference(op.Proxy())))
+			return v, nil
+		}
+		if !pv.Type().AssignableTo(t) {
+			return v, fmt.Errorf("generated API wants a %v for an object of %s, the reference held is a %v", t, leaf.Itf, pv.Type())
+		}
+		v.Set(pv)
+		return v, nil
+	}
 	if t == valueType {
 		d, err := dynamic(a)
 		if err != nil {
@@ -170,7 +258,7 @@ func Build(t reflect.Type, a interface{}) (v reflect.Value, err error) {
 		l := a.([]interface{})
 		v.Set(reflect.MakeSlice(t, len(l), len(l)))
 		for i, x := range l {
-			e, err := Build(t.Elem(), x)
+			e, err := buildX(c, t.Elem(), x)
 			if err != nil {
 				return v, err
 			}
@@ -181,11 +269,11 @@ func Build(t reflect.Type, a interface{}) (v reflect.Value, err error) {
 		v.Set(reflect.MakeMapWithSize(t, len(l)))
 		for _, p := range l {
 			kv := p.([]interface{})
-			k, err := Build(t.Key(), kv[0])
+			k, err := buildX(c, t.Key(), kv[0])
 			if err != nil {
 				return v, err
 			}
-			e, err := Build(t.Elem(), kv[1])
+			e, err := buildX(c, t.Elem(), kv[1])
 			if err != nil {
 				return v, err
 			}
@@ -197,7 +285,7 @@ func Build(t reflect.Type, a interface{}) (v reflect.Value, err error) {
 			return v, fmt.Errorf("%v has %d fields, value has %d", t, t.NumField(), len(l))
 		}
 		for i, x := range l {
-			e, err := Build(t.Field(i).Type, x)
+			e, err := buildX(c, t.Field(i).Type, x)
 			if err != nil {
 				return v, err
 			}
@@ -210,12 +298,24 @@ func Build(t reflect.Type, a interface{}) (v reflect.Value, err error) {
 }
 
 // Diff compares the Go value v with the abstract value a; "" when equal.
-func Diff(v reflect.Value, a interface{}, path string) (d string) {
+func Diff(v reflect.Value, a interface{}, path string) (d string) { return diffX(nil, v, a, path) }
+
+// diffX is Diff for a value that may contain references: what arrived in an
+// object slot is handed to the exchange context (kept under the receiver's
+// handle; checked to denote the object that was sent).
+func diffX(c *xctx, v reflect.Value, a interface{}, path string) (d string) {
 	defer func() {
 		if r := recover(); r != nil {
 			d = fmt.Sprintf("%s: %v", path, r)
 		}
 	}()
+	if n, isSlot := slotOf(a); isSlot {
+		if c == nil || n < 1 || n > len(c.leaves) {
+			return fmt.Sprintf("%s: object slot %d without a reference", path, n)
+		}
+		c.received(v, c.leaves[n-1], path)
+		return ""
+	}
 	t := v.Type()
 	if m, isDyn := a.(map[string]interface{}); t == valueType || (isDyn && m["sig"] != nil) {
 		if !t.Implements(valueType) {
@@ -240,8 +340,14 @@ func Diff(v reflect.Value, a interface{}, path string) (d string) {
 		if v.Len() != len(l) {
 			return fmt.Sprintf("%s: want %d elements, have %d", path, len(l), v.Len())
 		}
+		if c != nil && c.bind { // keep going: every reference that arrived is kept
+			for i, x := range l {
+				diffX(c, v.Index(i), x, fmt.Sprintf("%s[%d]", path, i))
+			}
+			return ""
+		}
 		for i, x := range l {
-			if d := Diff(v.Index(i), x, fmt.Sprintf("%s[%d]", path, i)); d != "" {
+			if d := diffX(c, v.Index(i), x, fmt.Sprintf("%s[%d]", path, i)); d != "" {
 				return d
 			}
 		}
@@ -260,7 +366,7 @@ func Diff(v reflect.Value, a interface{}, path string) (d string) {
 			if !e.IsValid() {
 				return fmt.Sprintf("%s: key %v missing", path, k)
 			}
-			if d := Diff(e, kv[1], fmt.Sprintf("%s[%v]", path, k)); d != "" {
+			if d := diffX(c, e, kv[1], fmt.Sprintf("%s[%v]", path, k)); d != "" {
 				return d
 			}
 		}
@@ -270,11 +376,14 @@ func Diff(v reflect.Value, a interface{}, path string) (d string) {
 			return fmt.Sprintf("%s: want %d fields, have %v", path, len(l), t)
 		}
 		for i, x := range l {
-			if d := Diff(v.Field(i), x, path+"."+t.Field(i).Name); d != "" {
+			if d := diffX(c, v.Field(i), x, path+"."+t.Field(i).Name); d != "" {
 				return d
 			}
 		}
 	default:
+		if c != nil && c.bind {
+			return ""
+		}
 		want, err := Build(t, a)
 		if err != nil {
 			return path + ": " + err.Error()
@@ -287,19 +396,257 @@ func Diff(v reflect.Value, a interface{}, path string) (d string) {
 }
 
 // ---------------------------------------------------------------------------
+// objects and references
+// ---------------------------------------------------------------------------
+
+// errNotHeld: an operation needs a reference that an earlier operation of
+// the behaviour failed to deliver (that failure was reported there).
+var errNotHeld = errors.New("reference not held")
+
+// the objects of a behaviour (IdlRpc!ObjItf, ObjHost): 1 the service's
+// object, 2..5 created by the implementation in its service, 6 and 7 by the
+// client on the proxy's service reference
+var objItf = [...]string{"", "Itf", "Itf", "Probe", "Probe", "Relay", "Probe", "Probe"}
+
+const rootObj = 1
+
+func slotItf(n string) string {
+	if n == "obj" {
+		return "Probe" // generic references carry Probes
+	}
+	return n
+}
+
+// Obj is the implementation of one object: the generated implementors of the
+// exchanged interfaces forward ident and pass to it.
+type Obj struct {
+	N     int
+	Itf   string
+	count int32
+	w     *world
+	mu    sync.Mutex
+	seen  []interface{} // the references pass observed
+}
+
+// Ident tells which object executes.
+func (o *Obj) Ident() (int32, error) {
+	atomic.AddInt32(&o.count, 1)
+	return int32(o.N), nil
+}
+
+// Pass returns the reference it is given.
+func (o *Obj) Pass(p interface{}) (interface{}, error) {
+	atomic.AddInt32(&o.count, 1)
+	o.mu.Lock()
+	o.seen = append(o.seen, p)
+	o.mu.Unlock()
+	return p, nil
+}
+
+// Sub is the handler of an object of the assembled interface other than the
+// service's own.
+func (o *Obj) Sub() *Handler {
+	return &Handler{itf: o.w.itf, sc: o.w.sc, w: o.w, obj: o, secondary: true}
+}
+
+// world is the state of one behaviour: the objects and the references both
+// sides hold (IdlRpc: cheld, sheld).
+type world struct {
+	itf    *Itf
+	sc     *Scenario
+	sess   bus.Session
+	mu     sync.Mutex
+	objs   map[int]*Obj
+	client map[int]reflect.Value
+	impl   map[int]reflect.Value
+	hung   bool
+	failed int
+	op     interface{}
+	report func(class, detail string, op interface{})
+}
+
+func (w *world) fail(class, detail string) {
+	w.failed++
+	w.report(class, detail, w.op)
+}
+
+func (w *world) newObj(n int) *Obj {
+	o := &Obj{N: n, Itf: objItf[n], w: w}
+	w.mu.Lock()
+	w.objs[n] = o
+	w.mu.Unlock()
+	return o
+}
+
+func (w *world) hold(side map[int]reflect.Value, h int, v reflect.Value) {
+	w.mu.Lock()
+	side[h] = v
+	w.mu.Unlock()
+}
+
+func (w *world) held(side map[int]reflect.Value, h int) (reflect.Value, bool) {
+	w.mu.Lock()
+	defer w.mu.Unlock()
+	v, ok := side[h]
+	return v, ok
+}
+
+func (w *world) counts() map[int]int32 {
+	w.mu.Lock()
+	defer w.mu.Unlock()
+	c := map[int]int32{}
+	for n, o := range w.objs {
+		c[n] = atomic.LoadInt32(&o.count)
+	}
+	return c
+}
+
+// callTimeout bounds every call through generated code (in-process: a call
+// takes well under a millisecond); once a call of a kind has hung in a
+// package, later ones wait shortly.
+const callTimeout = 10 * time.Second
+
+var hangs = map[string]bool{}
+
+func (w *world) wait(what string) time.Duration {
+	if hangs[w.sc.Pkg+what] {
+		return 500 * time.Millisecond
+	}
+	return callTimeout
+}
+
+func (w *world) hangAt(what string) {
+	hangs[w.sc.Pkg+what] = true
+	w.hung = true
+}
+
+// timed runs f; false when it does not return within d (f keeps running).
+func timed(d time.Duration, f func()) bool {
+	done := make(chan struct{})
+	go func() {
+		defer close(done)
+		f()
+	}()
+	t := time.NewTimer(d)
+	defer t.Stop()
+	select {
+	case <-done:
+		return true
+	case <-t.C:
+		return false
+	}
+}
+
+// proxyOf turns what arrived in an object slot into a generated proxy.
+func (w *world) proxyOf(v reflect.Value, leaf Leaf) (reflect.Value, string) {
+	for v.Kind() == reflect.Interface {
+		if v.IsNil() {
+			return v, "nil reference"
+		}
+		v = v.Elem()
+	}
+	if v.Type() == objRefType { // the generic reference
+		mk := w.itf.Make[slotItf(leaf.Itf)]
+		if mk == nil {
+			return v, "package has no Make" + slotItf(leaf.Itf)
+		}
+		p, err := w.sess.Object(v.Interface().(object.ObjectReference))
+		if err != nil {
+			return v, "session.Object: " + err.Error()
+		}
+		return reflect.ValueOf(mk(w.sess, p)), ""
+	}
+	if v.Kind() == reflect.Ptr && v.IsNil() {
+		return v, "nil reference"
+	}
+	return v, ""
+}
+
+// verify calls ident through a reference: the call must be executed once, by
+// the object the reference has to denote, and by no other.
+func (w *world) verify(p reflect.Value, obj int, path, cls string) {
+	if w.hung {
+		return
+	}
+	before := w.counts()
+	var out []reflect.Value
+	var err error
+	if !timed(w.wait("ident"), func() { out, err = callMethod(nil, p, "Ident", nil) }) {
+		w.hangAt("ident")
+		w.fail("reference-call-hangs/"+cls, path+": ident through the reference does not return")
+		return
+	}
+	if err == nil {
+		err = lastError(out)
+	}
+	if err != nil {
+		w.fail("reference-unusable/"+cls, fmt.Sprintf("%s: ident through the reference (object %d expected): %v", path, obj, err))
+		return
+	}
+	if got := out[0].Int(); got != int64(obj) {
+		w.fail("reference-denotes-other-object/"+cls, fmt.Sprintf("%s: the reference reaches object %d, object %d was sent", path, got, obj))
+	}
+	after := w.counts()
+	for n := range after {
+		d := after[n] - before[n]
+		switch {
+		case n == obj && d != 1:
+			w.fail("reference-call-not-executed-once/"+cls, fmt.Sprintf("%s: object %d executed the call %d times", path, n, d))
+		case n != obj && d != 0:
+			w.fail("reference-call-reaches-other-object/"+cls, fmt.Sprintf("%s: object %d executed a call meant for object %d", path, n, obj))
+		}
+	}
+}
+
+// xctx is the context of one transfer of a value that contains references.
+type xctx struct {
+	w      *world
+	from   map[int]reflect.Value // the sender's references (Build)
+	to     map[int]reflect.Value // the receiver's (Diff)
+	leaves []Leaf
+	second bool   // the receiver is the second one: its handle is hg2
+	bind   bool   // keep what arrives, check nothing (inside the execution of the object itself)
+	cls    string // class of the action
+}
+
+func (c *xctx) received(v reflect.Value, leaf Leaf, path string) {
+	h := leaf.Hg
+	if c.second {
+		h = leaf.Hg2
+	}
+	pv, problem := c.w.proxyOf(v, leaf)
+	if problem != "" {
+		if !c.bind {
+			c.w.fail("reference-unusable/"+c.cls, path+": "+problem)
+		}
+		return
+	}
+	if h != 0 {
+		c.w.hold(c.to, h, pv)
+	}
+	if !c.bind {
+		c.w.verify(pv, leaf.Obj, path, c.cls)
+	}
+}
+
+// ---------------------------------------------------------------------------
 // the implementor side
 // ---------------------------------------------------------------------------
 
 // Handler is shared by the generated implementors: they forward every call.
 type Handler struct {
-	itf    *Itf
-	sc     *Scenario
-	helper reflect.Value
-	mu     sync.Mutex
-	calls  []recorded
-	ret    interface{} // abstract value the next method call returns
-	hasRet bool
-	errs   []string
+	itf       *Itf
+	sc        *Scenario
+	w         *world
+	obj       *Obj
+	secondary bool // an object of the interface other than the service's: creates no objects
+	helper    reflect.Value
+	mu        sync.Mutex
+	calls     []recorded
+	cur       *Op         // the operation being replayed
+	ret       interface{} // abstract value the next method call returns
+	hasRet    bool
+	errs      []string
 }
 
 type recorded struct {
@@ -308,22 +655,42 @@ type recorded struct {
 	args []interface{}
 }
 
-// Activate stores the signal helper and initialises the properties.
+// Activate stores the signal helper, creates the objects the implementation
+// hosts and initialises the properties.
 func (h *Handler) Activate(activation bus.Activation, helper interface{}) error {
 	h.helper = reflect.ValueOf(helper)
+	if !h.secondary {
+		for _, n := range []int{3, 4, 5, 2} {
+			if !h.sc.has(objItf[n]) {
+				continue
+			}
+			mk := h.itf.Create[objItf[n]]
+			if mk == nil {
+				h.errs = append(h.errs, "package has no Create"+objItf[n])
+				continue
+			}
+			p, err := mk(activation.Session, activation.Service, h.w.newObj(n))
+			if err != nil {
+				h.errs = append(h.errs, fmt.Sprintf("Create%s: %v", objItf[n], err))
+				continue
+			}
+			h.w.hold(h.w.impl, n, reflect.ValueOf(p))
+		}
+	}
 	props := h.sc.sorted("property")
 	for pos, name := range h.itf.HelperUpdates {
 		if pos >= len(props) {
 			break
 		}
-		if err := h.helperCall(name, props[pos].Init); err != nil {
+		c := &xctx{w: h.w, from: h.w.impl, leaves: props[pos].InitObjs}
+		if err := h.helperCall(c, name, props[pos].Init); err != nil && !(h.secondary && errors.Is(err, errNotHeld)) {
 			h.errs = append(h.errs, fmt.Sprintf("initialise %s: %v", name, err))
 		}
 	}
 	return nil
 }
 
-func (h *Handler) helperCall(name string, args []interface{}) (err error) {
+func (h *Handler) helperCall(c *xctx, name string, args []interface{}) (err error) {
 	defer func() {
 		if r := recover(); r != nil {
 			err = fmt.Errorf("panic: %v", r)
@@ -338,7 +705,7 @@ func (h *Handler) helperCall(name string, args []interface{}) (err error) {
 	}
 	in := make([]reflect.Value, len(args))
 	for i, a := range args {
-		in[i], err = Build(m.Type().In(i), a)
+		in[i], err = buildX(c, m.Type().In(i), a)
 		if err != nil {
 			return err
 		}
@@ -350,13 +717,39 @@ func (h *Handler) helperCall(name string, args []interface{}) (err error) {
 	return nil
 }
 
+// Ident is invoked by the generated implementor of an interface that refers
+// to itself.
+func (h *Handler) Ident() (int32, error) { return h.obj.Ident() }
+
+// bind keeps the references that arrive with the arguments under the
+// implementation's handles: the result may pass them on.
+func (h *Handler) bind(args []interface{}) {
+	if h.cur == nil || len(h.cur.Objs) == 0 {
+		return
+	}
+	c := &xctx{w: h.w, to: h.w.impl, leaves: h.cur.Objs, bind: true}
+	for i, a := range args {
+		if i < len(h.cur.Args) {
+			diffX(c, reflect.ValueOf(a), h.cur.Args[i], "")
+		}
+	}
+}
+
 // Call is invoked by the generated implementor for the idx-th method.
 func (h *Handler) Call(idx int, args []interface{}, ret interface{}) error {
 	h.mu.Lock()
 	defer h.mu.Unlock()
 	h.calls = append(h.calls, recorded{"call", idx, args})
+	h.bind(args)
 	if ret != nil && h.hasRet {
-		v, err := Build(reflect.TypeOf(ret).Elem(), h.ret)
+		c := &xctx{w: h.w, from: h.w.impl}
+		if h.cur != nil {
+			c.leaves = h.cur.Robjs
+		}
+		v, err := buildX(c, reflect.TypeOf(ret).Elem(), h.ret)
+		if errors.Is(err, errNotHeld) {
+			return err
+		}
 		if err != nil {
 			h.errs = append(h.errs, err.Error())
 			return nil
@@ -371,6 +764,7 @@ func (h *Handler) Change(idx int, args []interface{}) error {
 	h.mu.Lock()
 	defer h.mu.Unlock()
 	h.calls = append(h.calls, recorded{"change", idx, args})
+	h.bind(args)
 	return nil
 }
 
@@ -380,6 +774,16 @@ func (h *Handler) take() []recorded {
 	c := h.calls
 	h.calls = nil
 	return c
+}
+
+func (h *Handler) expect(op *Op) {
+	h.mu.Lock()
+	defer h.mu.Unlock()
+	h.cur = op
+	h.hasRet = op != nil && op.Op == "call" && len(op.Ret) == 1
+	if h.hasRet {
+		h.ret = op.Ret[0]
+	}
 }
 
 // ---------------------------------------------------------------------------
@@ -427,6 +831,33 @@ func (l *blockingListener) Close() error {
 	return nil
 }
 
+// sharedSession is the client's session: like bus/session it reaches a
+// service through one connection, whatever the number of proxies (the
+// server's local session opens a connection per proxy; an object hosted by
+// the client is reachable through the connection it was created on only).
+type sharedSession struct {
+	ns     bus.Namespace
+	client bus.Client
+}
+
+func (s *sharedSession) Proxy(name string, objectID uint32) (bus.Proxy, error) {
+	serviceID, err := s.ns.Resolve(name)
+	if err != nil {
+		return nil, err
+	}
+	meta, err := bus.GetMetaObject(s.client, serviceID, objectID)
+	if err != nil {
+		return nil, fmt.Errorf("metaObject (service %d, object %d): %s", serviceID, objectID, err)
+	}
+	return bus.NewProxy(s.client, meta, serviceID, objectID), nil
+}
+
+func (s *sharedSession) Object(ref object.ObjectReference) (bus.Proxy, error) {
+	return bus.NewProxy(s.client, ref.MetaObject, ref.ServiceID, ref.ObjectID), nil
+}
+
+func (s *sharedSession) Terminate() error { return nil }
+
 type subscription struct {
 	cancel reflect.Value
 	ch     reflect.Value
@@ -468,14 +899,14 @@ func receiveWithin(ch reflect.Value, eventTimeout time.Duration) (reflect.Value,
 
 // payloadDiff compares an event / property value with the abstract values of
 // the parameters: one parameter travels alone, several as a struct.
-func payloadDiff(v reflect.Value, np int, vals []interface{}) string {
+func payloadDiff(c *xctx, v reflect.Value, np int, vals []interface{}) string {
 	if np == 1 {
-		return Diff(v, vals[0], "event")
+		return diffX(c, v, vals[0], "event")
 	}
-	return Diff(v, interface{}(vals), "event")
+	return diffX(c, v, interface{}(vals), "event")
 }
 
-func callMethod(recv reflect.Value, name string, args []interface{}) (out []reflect.Value, err error) {
+func callMethod(c *xctx, recv reflect.Value, name string, args []interface{}) (out []reflect.Value, err error) {
 	defer func() {
 		if r := recover(); r != nil {
 			err = fmt.Errorf("panic: %v", r)
@@ -490,7 +921,7 @@ func callMethod(recv reflect.Value, name string, args []interface{}) (out []refl
 	}
 	in := make([]reflect.Value, len(args))
 	for i, a := range args {
-		in[i], err = Build(m.Type().In(i), a)
+		in[i], err = buildX(c, m.Type().In(i), a)
 		if err != nil {
 			return nil, err
 		}
@@ -508,6 +939,12 @@ func lastError(out []reflect.Value) error {
 	return nil
 }
 
+// notHeld: the operation cannot be replayed because an earlier one, whose
+// failure was reported, did not deliver a reference.
+func notHeld(err error) bool {
+	return err != nil && strings.Contains(err.Error(), errNotHeld.Error())
+}
+
 // Run executes one scenario; report receives every deviation.
 func Run(sc *Scenario, report func(class, detail string, op interface{})) {
 	itf, ok := registry[sc.Pkg]
@@ -521,14 +958,28 @@ func Run(sc *Scenario, report func(class, detail string, op interface{})) {
 		report("generated-api-shape/"+sc.Cls, fmt.Sprintf("interface has %d methods, %d signals, %d properties; generated: %+v", nm, ns, np, *itf), nil)
 		return
 	}
-	h := &Handler{itf: itf, sc: sc}
+	for _, n := range sc.Itfs {
+		if itf.Create[n] == nil || itf.Make[n] == nil {
+			report("generated-api-shape/"+sc.Cls, "the generated package lacks Create"+n+" / Make"+n, nil)
+			return
+		}
+	}
+	w := &world{itf: itf, sc: sc, objs: map[int]*Obj{}, client: map[int]reflect.Value{}, impl: map[int]reflect.Value{}, report: report}
+	h := &Handler{itf: itf, sc: sc, w: w, obj: w.newObj(rootObj)}
 	listener := &blockingListener{ch: make(chan struct{})}
-	srv, err := bus.StandAloneServer(listener, bus.Yes{}, bus.PrivateNamespace())
+	names := bus.PrivateNamespace()
+	srv, err := bus.StandAloneServer(listener, bus.Yes{}, names)
 	if err != nil {
 		report("harness/server", err.Error(), nil)
 		return
 	}
-	defer srv.Terminate()
+	defer func() {
+		if w.hung { // an object of the service waits for ever: Terminate may do so too
+			go srv.Terminate()
+		} else {
+			srv.Terminate()
+		}
+	}()
 	if _, err = srv.NewService(itf.Name, itf.Object(itf.NewImpl(h))); err != nil {
 		report("service-activation-fails/"+sc.Cls, err.Error(), nil)
 		return
@@ -538,61 +989,133 @@ func Run(sc *Scenario, report func(class, detail string, op interface{})) {
 	}
 	h.errs = nil
 	h.take() // change callbacks of the initialisation
-	p, err := itf.Proxy(srv.Session())
+	w.sess = &sharedSession{ns: names, client: srv.Client()}
+	p, err := itf.Proxy(w.sess)
 	if err != nil {
 		report("proxy-creation-fails/"+sc.Cls, err.Error(), nil)
 		return
 	}
 	proxy := reflect.ValueOf(p)
+	// the references both sides hold at the start (IdlRpc: CHeld0, SHeld0)
+	if sc.has("Itf") {
+		w.client[rootObj] = proxy
+		if p2, err := itf.Proxy(srv.Session()); err == nil { // the implementation's own session
+			w.impl[rootObj] = reflect.ValueOf(p2)
+		}
+	}
+	if sc.has("Probe") {
+		op, isObj := p.(bus.ObjectProxy)
+		if !isObj {
+			report("generated-api-shape/"+sc.Cls, "the generated proxy is not a bus.ObjectProxy", nil)
+			return
+		}
+		service := op.Proxy().ProxyService(w.sess)
+		for _, n := range []int{6, 7} {
+			cp, err := itf.Create["Probe"](w.sess, service, w.newObj(n))
+			if err != nil {
+				report("client-object-creation-fails/"+sc.Cls, err.Error(), nil)
+				return
+			}
+			w.client[n] = reflect.ValueOf(cp)
+		}
+	}
 	subs := map[int]*subscription{}
-	for _, op := range sc.Ops {
+	defer func() {
+		if !w.hung {
+			for _, s := range subs {
+				s.cancel.Call(nil)
+			}
+		}
+	}()
+	// a call through generated code, bounded
+	call := func(c *xctx, recv reflect.Value, name string, args []interface{}, what string) (out []reflect.Value, err error, hung bool) {
+		if !timed(w.wait(what), func() { out, err = callMethod(c, recv, name, args) }) {
+			w.hangAt(what)
+			return nil, nil, true
+		}
+		if err == nil {
+			err = lastError(out)
+		}
+		return out, err, false
+	}
+	for i := range sc.Ops {
+		op := sc.Ops[i]
+		w.op = op
+		if op.Op == "use" || op.Op == "via" {
+			side := w.client
+			if op.Side == "s" {
+				side = w.impl
+			}
+			ref, ok := w.held(side, op.H)
+			if !ok {
+				if w.failed == 0 {
+					report("harness/unknown-handle", fmt.Sprint(op.H), op)
+				}
+				continue
+			}
+			if op.Op == "use" {
+				w.verify(ref, op.Exec, "use", sc.Cls)
+			} else {
+				via(w, &op, ref, call)
+			}
+			if w.hung {
+				return
+			}
+			continue
+		}
 		act, pos := sc.locate(op.ID)
 		if pos < 0 {
 			report("harness/unknown-action", fmt.Sprint(op.ID), op)
 			return
 		}
 		cls := act.Cls
+		if op.Dev != "" {
+			cls = op.Dev
+		}
+		what := fmt.Sprint(op.Op, op.ID, op.Dev)
 		switch op.Op {
 		case "call":
-			h.mu.Lock()
-			h.hasRet = len(op.Ret) == 1
-			if h.hasRet {
-				h.ret = op.Ret[0]
+			h.expect(&op)
+			out, err, hung := call(&xctx{w: w, from: w.client, leaves: op.Objs}, proxy, itf.ProxyMethods[pos], op.Args, what)
+			h.expect(nil)
+			if hung {
+				w.fail("call-hangs/"+cls, "the call does not return within "+callTimeout.String())
+				return
 			}
-			h.mu.Unlock()
-			out, err := callMethod(proxy, itf.ProxyMethods[pos], op.Args)
-			if err == nil {
-				err = lastError(out)
+			if notHeld(err) && w.failed > 0 {
+				h.take()
+				continue
 			}
 			if err != nil {
-				report("call-fails/"+cls, err.Error(), op)
+				w.fail("call-fails/"+cls, err.Error())
 				h.take()
 				continue
 			}
 			seen := h.take()
 			if len(seen) != 1 || seen[0].kind != "call" || seen[0].idx != pos {
-				report("call-reaches-wrong-method/"+cls, fmt.Sprintf("implementation observed %+v, expected method %d once", seen, pos), op)
+				w.fail("call-reaches-wrong-method/"+cls, fmt.Sprintf("implementation observed %+v, expected method %d once", seen, pos))
 				continue
 			}
 			if len(seen[0].args) != len(op.Args) {
-				report("call-arguments-differ/"+cls, fmt.Sprintf("%d arguments observed", len(seen[0].args)), op)
+				w.fail("call-arguments-differ/"+cls, fmt.Sprintf("%d arguments observed", len(seen[0].args)))
 				continue
 			}
+			ca := &xctx{w: w, to: w.impl, leaves: op.Objs, cls: cls}
 			for i, a := range seen[0].args {
-				if d := Diff(reflect.ValueOf(a), op.Args[i], fmt.Sprintf("arg%d", i)); d != "" {
-					report("call-arguments-differ/"+cls, d, op)
+				if d := diffX(ca, reflect.ValueOf(a), op.Args[i], fmt.Sprintf("arg%d", i)); d != "" {
+					w.fail("call-arguments-differ/"+cls, d)
 				}
 			}
-			if len(op.Ret) == 1 {
+			if len(op.Ret) == 1 && !w.hung {
 				if len(out) != 2 {
-					report("call-result-differs/"+cls, fmt.Sprintf("%d results", len(out)), op)
+					w.fail("call-result-differs/"+cls, fmt.Sprintf("%d results", len(out)))
 				} else {
 					want := op.Ret[0]
 					if len(op.Expect) == 1 {
 						want = op.Expect[0]
 					}
-					if d := Diff(out[0], want, "result"); d != "" {
-						report("call-result-differs/"+cls, d, op)
+					if d := diffX(&xctx{w: w, to: w.client, leaves: op.Robjs, cls: cls}, out[0], want, "result"); d != "" {
+						w.fail("call-result-differs/"+cls, d)
 					}
 				}
 			}
@@ -607,12 +1130,13 @@ func Run(sc *Scenario, report func(class, detail string, op interface{})) {
 			} else {
 				name = itf.ProxyProps[pos][2]
 			}
-			out, err := callMethod(proxy, name, nil)
-			if err == nil {
-				err = lastError(out)
+			out, err, hung := call(nil, proxy, name, nil, what)
+			if hung {
+				w.fail("subscribe-hangs/"+cls, "the subscription does not return within "+callTimeout.String())
+				return
 			}
 			if err != nil || len(out) != 3 {
-				report("subscribe-fails/"+cls, fmt.Sprint(err), op)
+				w.fail("subscribe-fails/"+cls, fmt.Sprint(err))
 				continue
 			}
 			subs[op.ID] = &subscription{cancel: out[0], ch: out[1]}
@@ -622,8 +1146,19 @@ func Run(sc *Scenario, report func(class, detail string, op interface{})) {
 				delete(subs, op.ID)
 			}
 		case "emit":
-			if err := h.helperCall(itf.HelperSignals[pos], op.Args); err != nil {
-				report("emit-fails/"+cls, err.Error(), op)
+			var err error
+			if !timed(w.wait(what), func() {
+				err = h.helperCall(&xctx{w: w, from: w.impl, leaves: op.Objs}, itf.HelperSignals[pos], op.Args)
+			}) {
+				w.hangAt(what)
+				w.fail("emit-hangs/"+cls, "the signal helper does not return within "+callTimeout.String())
+				return
+			}
+			if notHeld(err) && w.failed > 0 {
+				continue
+			}
+			if err != nil {
+				w.fail("emit-fails/"+cls, err.Error())
 				continue
 			}
 			if op.Deliver {
@@ -633,29 +1168,37 @@ func Run(sc *Scenario, report func(class, detail string, op interface{})) {
 				}
 				v, problem := receive(s.ch, fmt.Sprint(sc.Pkg, op.ID))
 				if problem != "" {
-					report("signal-not-delivered/"+cls, problem, op)
-				} else if d := payloadDiff(v, act.Np, op.Args); d != "" {
-					report("signal-payload-differs/"+cls, d, op)
+					w.fail("signal-not-delivered/"+cls, problem)
+				} else if d := payloadDiff(&xctx{w: w, to: w.client, leaves: op.Objs, cls: cls}, v, act.Np, op.Args); d != "" {
+					w.fail("signal-payload-differs/"+cls, d)
 				}
 			}
 		case "set":
-			out, err := callMethod(proxy, itf.ProxyProps[pos][1], op.Args)
-			if err == nil {
-				err = lastError(out)
+			h.expect(&op)
+			_, err, hung := call(&xctx{w: w, from: w.client, leaves: op.Objs}, proxy, itf.ProxyProps[pos][1], op.Args, what)
+			h.expect(nil)
+			if hung {
+				w.fail("property-set-hangs/"+cls, "the call does not return within "+callTimeout.String())
+				return
+			}
+			if notHeld(err) && w.failed > 0 {
+				h.take()
+				continue
 			}
 			if err != nil {
-				report("property-set-fails/"+cls, err.Error(), op)
+				w.fail("property-set-fails/"+cls, err.Error())
 				h.take()
 				continue
 			}
 			seen := h.take()
 			if len(seen) != 1 || seen[0].kind != "change" || seen[0].idx != pos {
-				report("property-change-not-observed/"+cls, fmt.Sprintf("implementation observed %+v", seen), op)
+				w.fail("property-change-not-observed/"+cls, fmt.Sprintf("implementation observed %+v", seen))
 			} else {
+				ca := &xctx{w: w, to: w.impl, leaves: op.Objs, cls: cls}
 				for i, a := range seen[0].args {
 					if i < len(op.Args) {
-						if d := Diff(reflect.ValueOf(a), op.Args[i], fmt.Sprintf("arg%d", i)); d != "" {
-							report("property-change-argument-differs/"+cls, d, op)
+						if d := diffX(ca, reflect.ValueOf(a), op.Args[i], fmt.Sprintf("arg%d", i)); d != "" {
+							w.fail("property-change-argument-differs/"+cls, d)
 						}
 					}
 				}
@@ -664,30 +1207,87 @@ func Run(sc *Scenario, report func(class, detail string, op interface{})) {
 				if s := subs[op.ID]; s != nil {
 					v, problem := receive(s.ch, fmt.Sprint(sc.Pkg, op.ID))
 					if problem != "" {
-						report("property-update-not-delivered/"+cls, problem, op)
-					} else if d := payloadDiff(v, act.Np, op.Args); d != "" {
-						report("property-update-differs/"+cls, d, op)
+						w.fail("property-update-not-delivered/"+cls, problem)
+					} else if d := payloadDiff(&xctx{w: w, to: w.client, leaves: op.Objs, second: true, cls: cls}, v, act.Np, op.Args); d != "" {
+						w.fail("property-update-differs/"+cls, d)
 					}
 				}
 			}
 		case "get":
-			out, err := callMethod(proxy, itf.ProxyProps[pos][0], nil)
-			if err == nil {
-				err = lastError(out)
+			out, err, hung := call(nil, proxy, itf.ProxyProps[pos][0], nil, what)
+			if hung {
+				w.fail("property-get-hangs/"+cls, "the call does not return within "+callTimeout.String())
+				return
 			}
 			if err != nil || len(out) != 2 {
-				report("property-get-fails/"+cls, fmt.Sprint(err), op)
+				w.fail("property-get-fails/"+cls, fmt.Sprint(err))
 				continue
 			}
-			if d := payloadDiff(out[0], act.Np, op.Ret); d != "" {
-				report("property-get-differs/"+cls, d, op)
+			if d := payloadDiff(&xctx{w: w, to: w.client, leaves: op.Robjs, cls: cls}, out[0], act.Np, op.Ret); d != "" {
+				w.fail("property-get-differs/"+cls, d)
 			}
 		default:
 			report("harness/unknown-op", op.Op, op)
 		}
+		if w.hung {
+			return
+		}
 	}
-	for _, s := range subs {
-		s.cancel.Call(nil)
+}
+
+// via: the client calls pass(g) on a received Relay: the Relay object must
+// execute it once, observe a reference to g's object and return it.
+func via(w *world, op *Op, relay reflect.Value,
+	call func(c *xctx, recv reflect.Value, name string, args []interface{}, what string) ([]reflect.Value, error, bool)) {
+	cls := w.sc.Cls
+	if len(op.Objs) != 1 || len(op.Robjs) != 1 {
+		w.report("harness/via", "one reference each way expected", op)
+		return
+	}
+	o := w.objs[op.Exec]
+	if o == nil {
+		w.report("harness/via", fmt.Sprint("no object ", op.Exec), op)
+		return
+	}
+	o.mu.Lock()
+	o.seen = nil
+	o.mu.Unlock()
+	before := w.counts()
+	slot := map[string]interface{}{"slot": float64(1)}
+	out, err, hung := call(&xctx{w: w, from: w.client, leaves: op.Objs}, relay, "Pass", []interface{}{slot}, "via")
+	if hung {
+		w.fail("reference-call-hangs/"+cls, "pass through the reference does not return")
+		return
+	}
+	if notHeld(err) && w.failed > 0 {
+		return
+	}
+	if err != nil {
+		w.fail("reference-unusable/"+cls, fmt.Sprintf("pass through the reference to object %d: %v", op.Exec, err))
+		return
+	}
+	after := w.counts()
+	for n := range after {
+		d := after[n] - before[n]
+		switch {
+		case n == op.Exec && d != 1:
+			w.fail("reference-call-not-executed-once/"+cls, fmt.Sprintf("pass: object %d executed the call %d times", n, d))
+		case n != op.Exec && d != 0:
+			w.fail("reference-call-reaches-other-object/"+cls, fmt.Sprintf("pass: object %d executed a call meant for object %d", n, op.Exec))
+		}
+	}
+	o.mu.Lock()
+	seen := o.seen
+	o.mu.Unlock()
+	if len(seen) == 1 {
+		(&xctx{w: w, to: w.impl, leaves: op.Objs, cls: cls}).received(reflect.ValueOf(seen[0]), op.Objs[0], "pass: argument")
+	}
+	if len(out) != 2 {
+		w.fail("generated-api-shape/"+cls, fmt.Sprintf("pass returns %d values", len(out)))
+		return
+	}
+	if !w.hung {
+		(&xctx{w: w, to: w.client, leaves: op.Robjs, cls: cls}).received(out[0], op.Robjs[0], "pass: result")
 	}
 }
 
